@@ -213,6 +213,10 @@ def t_space(acc, space, L, shard, nshard, stride=1, offset=0, mode='plain', dept
         for v in (24, 25, 26, 27, 28):
             check(acc, cfg.cfg_big(v), L, mode, depth)
         return
+    if space == 'biglong':
+        for (v, m) in ((25, 13), (26, 12), (26, 14), (27, 16), (28, 14)):
+            check(acc, cfg.cfg_big_long(v, m), L, mode, depth)
+        return
     gen = cfg.cfg3_units() if space == 'cfg3u' else (cfg.cfg4_units() if space == 'cfg4u' else cfg.cfg2(space == 'cfg2+'))
     for idx, spec in gen:
         if idx % stride == offset % stride and (idx // stride) % nshard == shard:
@@ -233,6 +237,7 @@ def plan(tier, seed):
 
     add('big', 4, 1)
     add('big', 4, 1, mode='instr', depth=1)
+    add('biglong', 4, 1)
     add('cfg3u', 3, 16, stride=4 if tier == 'quick' else 1)
     add('cfg3u', 3, 16, stride=4 if tier == 'quick' else 1, mode='instr', depth=2)
     add('cfg4u', 2, 16, stride=8 if tier == 'quick' else 1)
@@ -251,4 +256,4 @@ def plan(tier, seed):
         bounds = 'CFG2 (53 592) and CFG2+ (53 240) all, languages on words <= 5; stride 1/4 under the scheduler d<=1; CFGbig(24..28); CFG3u (6 912 three-variable unit-rule grammars) plain and under the scheduler d<=2'
     return {'tasks': tasks, 'bounds': {'spaces': bounds}, 'exhaustive': True,
             'rule': 'every grammar of the space: cfg_to_chomsky, the five public phase functions chained, cfg_apply_chomsky(G,p,start) for p=1..5; language by least fixpoint on both sides; scheduled layer: cfg_to_chomsky under every <= d set-order deviation; non-trivial = grammar with an epsilon rule and a unit rule',
-            'assumptions': ['CFG equivalence is undecidable: languages are compared on all words up to the stated length']}
+            'assumptions': ['CFG equivalence is undecidable: languages are compared on all words up to the stated length', 'wave 5: CFGbig(25..28) with one rule of 12-16 symbols (10-14 fresh variables with one hint)']}
